@@ -126,8 +126,17 @@ def check_fresh_run(fx, rep, rule):
         for a, _ in F.walk(root):
             if a.get("k") == "Assign" and a["l"].get("k") == "Field" and a["l"].get("field") == "state" and T._span_key(a["span"])[2] <= first:
                 r = F.strip(a["r"])
-                if r.get("k") == "Call" and not r["args"] and F.strip_generics(F.callee_def(r) or "").startswith(STATE + "::"):
+                # a fresh state: an argument-less constructor / `Default::default()` of the state type
+                if r.get("k") == "Call" and not r["args"] and (F.strip_generics(F.callee_def(r) or "").startswith(STATE + "::") or (r.get("ty") or "").strip() == STATE):
                     reset = True
+        # `std::mem::take(&mut self.state)` / `mem::replace(&mut self.state, <fresh>)` before the first stage
+        for c, _ in F.calls(root):
+            nm = F.strip_generics(F.callee_def(c) or "")
+            if nm in ("std::mem::take", "core::mem::take", "std::mem::replace", "core::mem::replace") and c["args"] and T._span_key(c["span"])[2] <= first:
+                a0 = F.strip(c["args"][0])
+                if a0.get("k") == "Field" and a0.get("field") == "state":
+                    if nm.endswith("take") or (len(c["args"]) > 1 and F.strip(c["args"][1]).get("k") == "Call" and not F.strip(c["args"][1])["args"]):
+                        reset = True
         rep.oblige(
             by_value or reset,
             rule,
